@@ -1,17 +1,23 @@
 /-
-  Correctness of the lowering of conditions in VALUE context (`compileExpr` on not / relational / and / or,
-  `compileLogicalOpExpr`, `compileLogicalOpExprAux`) on the same fragment as the branch-context theorem.
-  Part 1: frame facts for all modes.
+  Correctness of the lowering of expressions in VALUE context (`compileExpr` on every expression kind of the
+  model: leaves, not, relational, and / or, arithmetic with constant folding, unary minus, length,
+  concatenation; `compileLogicalOpExpr`, `compileLogicalOpExprAux`).
+  Part 1: frame facts for all modes — what each compile function does to the store, WITHOUT semantics:
+  code / constants only grow, labels below the entry counter keep their binding, the shape of the last
+  instruction (which decides whether Propagate(K)MV fires and whether the CONCAT-popping loop pops).
 -/
 import GLua.Proofs.Lowering
 
 namespace GLua.Lowering
 open GLua.Compile GLua.MiniVM GLua.CondSpec
 
+variable [NumStruct]
+set_option linter.unusedSectionVars false
 variable {V : Type}
 
 /-! ### lists / primitive steps -/
 
+omit [NumStruct] in
 theorem prefix_dropLast {α} {l1 l2 : List α} (h : l1 <+: l2) (hlt : l1.length < l2.length) : l1 <+: l2.dropLast := by
   obtain ⟨t, rfl⟩ := h
   have ht : t ≠ [] := by intro h0; subst h0; simp at hlt
@@ -79,8 +85,93 @@ theorem logicalTail_frame {lo : Nat} (s0 st : CState) (a : Nat) (lb : LbLabels) 
     refine ⟨(frame_pop f8' hlt8).trans (frame_setLabelHere _ _ hlo.1), ?_⟩
     simp; omega
 
+/-! ### constants, concatenations: classification of expression kinds -/
+
+/-- the pool constant an expression compiles to with a single LOADK: a string literal, a numeral, or an
+    arithmetic / unary-minus tree that `constFold` turns into a constant. -/
+def konstOf : Cond → Option Konst
+  | .str s => some (.str s)
+  | e => (lnum e).map Konst.num
+
+def isConcat : Cond → Bool
+  | .concat _ _ => true
+  | _ => false
+
+def isLoc : Cond → Bool
+  | .loc _ => true
+  | _ => false
+
+/-- the last instruction is not a CONCAT (so the popping loop of compileStringConcatOpExpr stops). -/
+def NoCat (c : List Instr) : Prop := ∀ a b c', c.getLast? ≠ some (Instr.concat a b c')
+
+omit [NumStruct] in
+theorem noCat_append_singleton (pre : List Instr) (i : Instr) (h : ∀ a b c, i ≠ .concat a b c) : NoCat (pre ++ [i]) := by
+  intro a b c; simp; exact h a b c
+
+theorem noCat_emit (st : CState) (i : Instr) (h : ∀ a b c, i ≠ .concat a b c) : NoCat (emit st i).code :=
+  noCat_append_singleton _ _ h
+
+omit [NumStruct] in
+theorem dropConcats_noCat (n : Nat) (c : List Instr) (h : NoCat c) : dropConcats n c = c := by
+  cases n with
+  | zero => rfl
+  | succ n =>
+    unfold dropConcats
+    split
+    · rename_i a b c' hl; exact absurd hl (h a b c')
+    · rfl
+
+omit [NumStruct] in
+/-- one trailing CONCAT behind code that does not end in a CONCAT: exactly that one is popped. -/
+theorem dropConcats_one (pre : List Instr) (a b c : Nat) (hne : pre ≠ []) (h : NoCat pre) :
+    dropConcats (pre ++ [Instr.concat a b c]).length (pre ++ [Instr.concat a b c]) = pre := by
+  have hlen : (pre ++ [Instr.concat a b c]).length = pre.length + 1 := by simp
+  rw [hlen]
+  unfold dropConcats
+  simp only [List.getLast?_append, List.getLast?_singleton, Option.some_or]
+  have : ¬ (pre.length + 1 = 1) := by
+    have : pre.length ≠ 0 := by intro h0; exact hne (List.length_eq_zero_iff.mp h0)
+    omega
+  simp only [List.length_append, List.length_singleton, this, if_false, List.dropLast_concat]
+  exact dropConcats_noCat _ _ h
 
 /-! ### frame facts of every mode -/
+
+theorem loadK_frame {lo : Nat} (k : Konst) (reg : Nat) (ec : ExpCtx) (st : CState) :
+    Frame lo st (loadK k reg ec st).st ∧ (loadK k reg ec st).st.code.length = st.code.length + 1 ∧
+    (loadK k reg ec st).inc = (if savereg ec reg < reg then 0 else 1) ∧
+    (loadK k reg ec st).st.code = st.code ++ [.loadk (savereg ec reg) (constIndex st k).2] := by
+  obtain ⟨_, _, h3, _⟩ := constIndex_spec st k
+  exact ⟨(frame_constIndex st k).trans (frame_emit _ _), by simp [loadK, h3], rfl, by simp [loadK, h3]⟩
+
+theorem loadK_last (k : Konst) (reg : Nat) (ec : ExpCtx) (st : CState) :
+    last (loadK k reg ec st).st = some (.loadk (savereg ec reg) (constIndex st k).2) := by simp [loadK]
+
+theorem noCat_loadK (k : Konst) (reg : Nat) (ec : ExpCtx) (st : CState) : NoCat (loadK k reg ec st).st.code :=
+  noCat_emit _ _ (by simp)
+
+theorem leafExpr_nocat (e : Cond) (he : isLeaf e = true) (reg : Nat) (ec : ExpCtx) (st : CState) :
+    NoCat (leafExpr e reg ec st).st.code := by
+  cases e <;> simp [isLeaf] at he
+  case num n => exact noCat_loadK _ _ _ _
+  case str n => exact noCat_loadK _ _ _ _
+  all_goals exact noCat_emit _ _ (by simp)
+
+theorem leafExpr_nomove (e : Cond) (he : isLeaf e = true) (hl : isLoc e = false) (reg : Nat) (ec : ExpCtx) (st : CState) :
+    ∀ a b, last (leafExpr e reg ec st).st ≠ some (.move a b) := by
+  intro a b
+  cases e <;> simp [isLeaf] at he <;> simp [isLoc] at hl
+  case num n => simp [leafExpr, loadK_last]
+  case str n => simp [leafExpr, loadK_last]
+  all_goals simp [leafExpr]
+
+theorem leafExpr_lastnocat (e : Cond) (he : isLeaf e = true) (reg : Nat) (ec : ExpCtx) (st : CState) :
+    ∀ x y z, last (leafExpr e reg ec st).st ≠ some (.concat x y z) := by
+  intro x y z
+  cases e <;> simp [isLeaf] at he
+  case num n => simp [leafExpr, loadK_last]
+  case str n => simp [leafExpr, loadK_last]
+  all_goals simp [leafExpr]
 
 theorem leafExpr_frame {lo : Nat} (e : Cond) (he : isLeaf e = true) (reg : Nat) (ec : ExpCtx) (st : CState) :
     Frame lo st (leafExpr e reg ec st).st ∧ (leafExpr e reg ec st).st.code.length = st.code.length + 1 ∧
@@ -91,74 +182,367 @@ theorem leafExpr_frame {lo : Nat} (e : Cond) (he : isLeaf e = true) (reg : Nat) 
   case nil => exact ⟨frame_emit _ _, by simp [leafExpr], rfl⟩
   case loc r => exact ⟨frame_emit _ _, by simp [leafExpr], rfl⟩
   case num n =>
-    obtain ⟨_, _, h3, _⟩ := constIndex_spec st (.num n)
-    exact ⟨(frame_constIndex st (.num n)).trans (frame_emit _ _), by simp [leafExpr, h3], rfl⟩
+    obtain ⟨h1, h2, h3, _⟩ := loadK_frame (lo := lo) (.num (NumStruct.lit n)) reg ec st
+    exact ⟨h1, h2, h3⟩
   case str n =>
-    obtain ⟨_, _, h3, _⟩ := constIndex_spec st (.str n)
-    exact ⟨(frame_constIndex st (.str n)).trans (frame_emit _ _), by simp [leafExpr, h3], rfl⟩
+    obtain ⟨h1, h2, h3, _⟩ := loadK_frame (lo := lo) (.str n) reg ec st
+    exact ⟨h1, h2, h3⟩
   case ev id =>
     obtain ⟨_, _, h3, _⟩ := constIndex_spec st (gname id)
     exact ⟨(frame_constIndex st (gname id)).trans (frame_emit _ _), by simp [leafExpr, h3], rfl⟩
 
-def ExprFrame (e : Cond) : Prop := ∀ (st : CState) (reg : Nat) (ec : ExpCtx), st.regTop ≤ reg →
-    Frame st.labelId st (comp e (.expr reg ec) st).st ∧
-    st.code.length < (comp e (.expr reg ec) st).st.code.length ∧
-    (comp e (.expr reg ec) st).inc = (if savereg ec reg < reg then 0 else 1) ∧
-    (isLeaf e = false → e.isLogical = false → LastOK (comp e (.expr reg ec) st).st)
+/-- what `compileExpr` does to the store, for one expression at one place. -/
+structure EF (e : Cond) (st : CState) (reg : Nat) (ec : ExpCtx) : Prop where
+  frame : Frame st.labelId st (comp e (.expr reg ec) st).st
+  lt : st.code.length < (comp e (.expr reg ec) st).st.code.length
+  inc : (comp e (.expr reg ec) st).inc = (if savereg ec reg < reg then 0 else 1)
+  /-- neither a constant nor a local nor a logical operator: the code ends in an instruction that
+      Propagate(K)MV does not touch -/
+  lastOK : isLoc e = false → e.isLogical = false → konstOf e = none → LastOK (comp e (.expr reg ec) st).st
+  /-- a constant (literal or folded): exactly one LOADK -/
+  konst : ∀ k, konstOf e = some k → comp e (.expr reg ec) st = loadK k reg ec st
+  /-- a local: exactly one MOVE -/
+  loc : ∀ r, e = .loc r → (comp e (.expr reg ec) st).st = emit st (.move (savereg ec reg) r)
+  /-- only a concatenation ends in a CONCAT … -/
+  nocat : isConcat e = false → NoCat (comp e (.expr reg ec) st).st.code
+  /-- … and then in exactly one, over the registers reg … reg + 1 + spine r -/
+  cat : ∀ l r, e = .concat l r → ∃ pre, (comp e (.expr reg ec) st).st.code = pre ++ [.concat (savereg ec reg) reg (reg + (1 + spine r))] ∧
+      st.code.length < pre.length ∧ NoCat pre
+  /-- no MOVE at the end unless the expression is a local or a logical operator -/
+  nomove : isLoc e = false → e.isLogical = false → ∀ a b, last (comp e (.expr reg ec) st).st ≠ some (.move a b)
+
+def ExprFrame (e : Cond) : Prop := ∀ (st : CState) (reg : Nat) (ec : ExpCtx), st.regTop ≤ reg → EF e st reg ec
+
+/-- what `compileLogicalOpExprAux` does to the store. -/
+structure AF (e : Cond) (st : CState) (reg : Nat) (ec : ExpCtx) (thenl elsel : Nat) (hasnext : Bool) (lb : LbLabels) (b : Bool) : Prop where
+  frame : Frame st.labelId st (comp e (.aux reg ec thenl elsel hasnext lb b) st).st
+  lt : st.code.length < (comp e (.aux reg ec thenl elsel hasnext lb b) st).st.code.length
+  bmono : b = true → (comp e (.aux reg ec thenl elsel hasnext lb b) st).b = true
+  /-- as the LAST operand of a logical expression: either the LOADBOOL pair will follow, or the code ends in
+      `i; JMP endlabel` with `i` not a CONCAT (after the jump is removed the expression does not end in a CONCAT) -/
+  lastop : hasnext = false → thenl = lb.e → elsel = lb.e →
+    (comp e (.aux reg ec thenl elsel hasnext lb b) st).b = true ∨
+    ∃ pre i, (comp e (.aux reg ec thenl elsel hasnext lb b) st).st.code = pre ++ [i, .jmp (lb.e : Int)] ∧
+      st.code.length ≤ pre.length ∧ ∀ x y z, i ≠ .concat x y z
 
 def AuxFrame (e : Cond) : Prop := ∀ (st : CState) (reg : Nat) (ec : ExpCtx) (thenl elsel : Nat) (hasnext : Bool) (lb : LbLabels) (b : Bool),
-    st.regTop ≤ reg →
-    Frame st.labelId st (comp e (.aux reg ec thenl elsel hasnext lb b) st).st ∧
-    st.code.length < (comp e (.aux reg ec thenl elsel hasnext lb b) st).st.code.length ∧
-    (b = true → (comp e (.aux reg ec thenl elsel hasnext lb b) st).b = true)
+    st.regTop ≤ reg → AF e st reg ec thenl elsel hasnext lb b
+
+theorem lastOK_emit (st : CState) (i : Instr) (h1 : ∀ a b, i ≠ .move a b) (h2 : ∀ a b, i ≠ .loadk a b) : LastOK (emit st i) := by
+  constructor <;> intro x y <;> simp
+  · exact h1 x y
+  · exact h2 x y
 
 theorem lastOK_emit_not (st : CState) (a b : Nat) : LastOK (emit st (.not a b)) := by
   constructor <;> intro x y <;> simp
 theorem lastOK_emit_loadbool (st : CState) (a b c : Nat) : LastOK (emit st (.loadbool a b c)) := by
   constructor <;> intro x y <;> simp
 
-/-- the operand of `not` (compileExprWithMVPropagation): result of `withPropagation false`. -/
-theorem notOperand_frame (c : Cond) (hc : ExprFrame c) (st : CState) (reg : Nat) (htop : st.regTop ≤ reg) :
-    Frame st.labelId st (withPropagation false c.isLogical (comp c (.expr reg ecnone0) st) reg).1 ∧
-    st.code.length ≤ (withPropagation false c.isLogical (comp c (.expr reg ecnone0) st) reg).1.code.length := by
-  obtain ⟨f, hlt, _, hlast⟩ := hc st reg ecnone0 htop
-  by_cases hleaf : isLeaf c = true
-  · have : withPropagation false c.isLogical (comp c (.expr reg ecnone0) st) reg = opnd false c reg st := by
-      rw [comp_leaf_expr c hleaf, isLogical_leaf c hleaf]; rfl
-    rw [this]
-    have f' := opnd_frame (lo := st.labelId) false c reg st hleaf htop
-    exact ⟨f', by have := f'.code.length_le; exact this⟩
-  · by_cases hlog : c.isLogical = true
-    · simp only [withPropagation, hlog, if_true]
-      exact ⟨f, Nat.le_of_lt hlt⟩
-    · have hlog' : c.isLogical = false := by simpa using hlog
-      have hleaf' : isLeaf c = false := by simpa using hleaf
-      simp only [withPropagation, hlog', Bool.false_eq_true, if_false]
-      rw [propagate_lastOK _ _ _ _ _ (hlast hleaf' hlog')]
-      exact ⟨f, Nat.le_of_lt hlt⟩
+/-! ### one operand through compileExprWith(K)MVPropagation -/
 
-theorem notExpr_frame (c : Cond) (hc : ExprFrame c) (st : CState) (reg : Nat) (ec : ExpCtx) (htop : st.regTop ≤ reg) :
-    Frame st.labelId st (notExpr c (fun s => comp c (.expr reg ecnone0) s) reg ec st).st ∧
-    st.code.length < (notExpr c (fun s => comp c (.expr reg ecnone0) s) reg ec st).st.code.length ∧
-    (notExpr c (fun s => comp c (.expr reg ecnone0) s) reg ec st).inc = (if savereg ec reg < reg then 0 else 1) ∧
-    LastOK (notExpr c (fun s => comp c (.expr reg ecnone0) s) reg ec st).st := by
-  have general : ∀ (hne : c ≠ .tru ∧ c ≠ .fls ∧ c ≠ .nil),
-      notExpr c (fun s => comp c (.expr reg ecnone0) s) reg ec st =
-        { st := emit (withPropagation false c.isLogical (comp c (.expr reg ecnone0) st) reg).1
-                  (.not (savereg ec reg) (withPropagation false c.isLogical (comp c (.expr reg ecnone0) st) reg).2.1),
-          inc := if savereg ec reg < reg then 0 else 1 } := by
-    intro hne
-    cases c <;> simp_all [notExpr]
+/-- `compileExprWithKMVPropagation` (kmv) / `…MV…` on an arbitrary expression: (store, operand, next free register). -/
+def opr (kmv : Bool) (c : Cond) (reg : Nat) (st : CState) : CState × Nat × Nat :=
+  withPropagation kmv c.isLogical (comp c (.expr reg ecnone0) st) reg
+
+theorem konstOf_notLogical {c : Cond} {k : Konst} (h : konstOf c = some k) : c.isLogical = false := by
+  cases c <;> simp [konstOf, lnum, Cond.isLogical] at h ⊢
+
+theorem konstOf_notLoc {c : Cond} {k : Konst} (h : konstOf c = some k) : isLoc c = false := by
+  cases c <;> simp [konstOf, lnum, isLoc] at h ⊢
+
+/-- the three ways an operand reaches the instruction that uses it. -/
+theorem opr_cases (kmv : Bool) (c : Cond) (st : CState) (reg : Nat) (hfr : EF c st reg ecnone0) (htop : st.regTop ≤ reg) :
+    (∃ k, konstOf c = some k ∧ opr kmv c reg st =
+        if reg ≥ (constIndex st k).1.regTop ∧ kmv = true ∧ (constIndex st k).2 ≤ Generated.opMaxIndexRk
+        then ((constIndex st k).1, (constIndex st k).2 + Generated.opBitRk, reg)
+        else (emit (constIndex st k).1 (.loadk reg (constIndex st k).2), reg, reg + 1)) ∨
+    (∃ r, c = .loc r ∧ opr kmv c reg st = (st, r, reg)) ∨
+    (konstOf c = none ∧ isLoc c = false ∧ opr kmv c reg st = ((comp c (.expr reg ecnone0) st).st, reg, reg + 1)) := by
+  have hinc : (comp c (.expr reg ecnone0) st).inc = 1 := by
+    rw [hfr.inc, savereg_ecnone0]; simp
+  cases hk : konstOf c with
+  | some k =>
+    left
+    refine ⟨k, rfl, ?_⟩
+    unfold opr
+    rw [konstOf_notLogical hk, hfr.konst k hk]
+    exact opndK_eq kmv k reg st
+  | none =>
+    right
+    cases hl : isLoc c with
+    | true =>
+      left
+      cases c <;> simp [isLoc] at hl
+      rename_i r
+      refine ⟨r, rfl, ?_⟩
+      have hst := hfr.loc r rfl
+      rw [savereg_ecnone0] at hst
+      have : reg ≥ st.regTop := htop
+      simp [opr, withPropagation, Cond.isLogical, hst, propagate, this]
+    | false =>
+      right
+      refine ⟨rfl, rfl, ?_⟩
+      unfold opr
+      cases hlog : c.isLogical with
+      | true => simp only [withPropagation, if_true, hinc]
+      | false =>
+        simp only [withPropagation, Bool.false_eq_true, if_false]
+        rw [propagate_lastOK _ _ _ _ _ (hfr.lastOK hl hlog hk), hinc]
+
+theorem opr_frame (kmv : Bool) (c : Cond) (st : CState) (reg : Nat) (hfr : EF c st reg ecnone0) (htop : st.regTop ≤ reg) :
+    Frame st.labelId st (opr kmv c reg st).1 ∧ st.code.length ≤ (opr kmv c reg st).1.code.length ∧
+    reg ≤ (opr kmv c reg st).2.2 ∧ (opr kmv c reg st).2.2 ≤ reg + 1 := by
+  rcases opr_cases kmv c st reg hfr htop with ⟨k, _, h⟩ | ⟨r, _, h⟩ | ⟨_, _, h⟩
+  · rw [h]
+    have hc := frame_constIndex (lo := st.labelId) st k
+    obtain ⟨_, _, h3, _⟩ := constIndex_spec st k
+    split
+    · exact ⟨hc, by rw [h3]; exact Nat.le_refl _, Nat.le_refl _, Nat.le_succ _⟩
+    · exact ⟨hc.trans (frame_emit _ _), by simp [h3], Nat.le_succ _, Nat.le_refl _⟩
+  · rw [h]; exact ⟨Frame.refl _, Nat.le_refl _, Nat.le_refl _, Nat.le_succ _⟩
+  · rw [h]; exact ⟨hfr.frame, Nat.le_of_lt hfr.lt, Nat.le_succ _, Nat.le_refl _⟩
+
+/-- the two operands of a binary operator. -/
+def bops (l r : Cond) (st : CState) (reg : Nat) : CState × Nat × Nat :=
+  binOperands (fun s g => comp l (.expr g ecnone0) s) (fun s g => comp r (.expr g ecnone0) s) l.isLogical r.isLogical st reg
+
+theorem bops_eq (l r : Cond) (st : CState) (reg : Nat) :
+    bops l r st reg = ((opr true r (opr true l reg st).2.2 (opr true l reg st).1).1, (opr true l reg st).2.1,
+      (opr true r (opr true l reg st).2.2 (opr true l reg st).1).2.1) := rfl
+
+theorem bops_frame (l r : Cond) (hl : ExprFrame l) (hr : ExprFrame r) (st : CState) (reg : Nat) (htop : st.regTop ≤ reg) :
+    Frame st.labelId st (bops l r st reg).1 ∧ st.code.length ≤ (bops l r st reg).1.code.length := by
+  rw [bops_eq]
+  obtain ⟨f1, hle1, hr1, _⟩ := opr_frame true l st reg (hl st reg ecnone0 htop) htop
+  have htop2 : (opr true l reg st).1.regTop ≤ (opr true l reg st).2.2 := by rw [f1.regTop]; omega
+  obtain ⟨f2, hle2, _, _⟩ := opr_frame true r (opr true l reg st).1 (opr true l reg st).2.2 (hr _ _ ecnone0 htop2) htop2
+  exact ⟨f1.trans (f2.mono f1.labelId), by simp only []; omega⟩
+
+theorem relAux_eq (op : RelOp) (l r : Cond) (st : CState) (reg flip L : Nat) :
+    relAux (fun s g => comp l (.expr g ecnone0) s) (fun s g => comp r (.expr g ecnone0) s) l.isLogical r.isLogical st reg op flip L =
+      emit (emit (bops l r st reg).1 (relInstr op flip (bops l r st reg).2.1 (bops l r st reg).2.2)) (.jmp (L : Int)) := rfl
+
+/-- abbreviation: the code of `compileRelationalOpExprAux`. -/
+def relCode (op : RelOp) (l r : Cond) (st : CState) (reg flip L : Nat) : CState :=
+  emit (emit (bops l r st reg).1 (relInstr op flip (bops l r st reg).2.1 (bops l r st reg).2.2)) (.jmp (L : Int))
+
+theorem relCode_frame (op : RelOp) (l r : Cond) (hl : ExprFrame l) (hr : ExprFrame r) (st : CState) (reg flip L : Nat)
+    (htop : st.regTop ≤ reg) :
+    Frame st.labelId st (relCode op l r st reg flip L) ∧ st.code.length < (relCode op l r st reg flip L).code.length := by
+  obtain ⟨f, hle⟩ := bops_frame l r hl hr st reg htop
+  exact ⟨f.trans ((frame_emit _ _).trans (frame_emit _ _)), by simp [relCode]; omega⟩
+
+omit [NumStruct] in
+theorem relInstr_ne_concat (op : RelOp) (flip b c : Nat) : ∀ x y z, relInstr op flip b c ≠ .concat x y z := by
+  intro x y z; cases op <;> simp [relInstr]
+
+/-! ### the expression kinds -/
+
+theorem ef_leaf (e : Cond) (he : isLeaf e = true) : ExprFrame e := by
+  intro st reg ec _
+  obtain ⟨f, hl, hi⟩ := leafExpr_frame (lo := st.labelId) e he reg ec st
+  have hc := comp_leaf_expr e he reg ec st
+  refine ⟨by rw [hc]; exact f, by rw [hc]; omega, by rw [hc]; exact hi, ?_, ?_, ?_, ?_, ?_, ?_⟩
+  · intro h1 _ h3
+    rw [hc]
+    cases e <;> simp [isLeaf] at he <;> simp [isLoc] at h1 <;> simp [konstOf, lnum] at h3
+    · exact lastOK_emit_loadbool _ _ _ _
+    · exact lastOK_emit_loadbool _ _ _ _
+    · exact lastOK_emit _ _ (by simp) (by simp)
+    · exact lastOK_emit _ _ (by simp) (by simp)
+  · intro k hk
+    rw [hc]
+    cases e <;> simp [isLeaf] at he <;> simp [konstOf, lnum] at hk
+    · subst hk; rfl
+    · subst hk; rfl
+  · intro r hr; subst hr; rw [hc]; rfl
+  · intro _; rw [hc]; exact leafExpr_nocat e he reg ec st
+  · intro l r h; subst h; simp [isLeaf] at he
+  · intro h1 _; rw [hc]; exact leafExpr_nomove e he h1 reg ec st
+
+/-- an expression whose code is produced by `loadK` (a folded constant). -/
+theorem ef_of_loadK (e : Cond) (x : NumStruct.N) (hk : konstOf e = some (.num x)) (st : CState) (reg : Nat) (ec : ExpCtx)
+    (hc : comp e (.expr reg ec) st = loadK (.num x) reg ec st) (hcat : isConcat e = false) : EF e st reg ec := by
+  obtain ⟨f, hl, hi, hcode⟩ := loadK_frame (lo := st.labelId) (.num x) reg ec st
+  refine ⟨by rw [hc]; exact f, by rw [hc]; omega, by rw [hc]; exact hi, ?_, ?_, ?_, ?_, ?_, ?_⟩
+  · intro _ _ h3; rw [hk] at h3; cases h3
+  · intro k hk'; rw [hk] at hk'; cases hk'; exact hc
+  · intro r hr; subst hr; simp [konstOf, lnum] at hk
+  · intro _; rw [hc, hcode]; exact noCat_append_singleton _ _ (by simp)
+  · intro l r h; subst h; simp [isConcat] at hcat
+  · intro _ _ a b; rw [hc]; simp [last, hcode]
+
+/-- a unary operator through `unopExpr` (NOT, UNM, LEN). -/
+theorem unop_frame (mk : Nat → Nat → Instr) (c : Cond) (hc : ExprFrame c) (st : CState) (reg : Nat) (ec : ExpCtx) (htop : st.regTop ≤ reg) :
+    Frame st.labelId st (unopExpr mk c.isLogical (fun s => comp c (.expr reg ecnone0) s) reg ec st).st ∧
+    st.code.length < (unopExpr mk c.isLogical (fun s => comp c (.expr reg ecnone0) s) reg ec st).st.code.length ∧
+    (unopExpr mk c.isLogical (fun s => comp c (.expr reg ecnone0) s) reg ec st).st =
+      emit (opr false c reg st).1 (mk (savereg ec reg) (opr false c reg st).2.1) := by
+  obtain ⟨f, hle, _, _⟩ := opr_frame false c st reg (hc st reg ecnone0 htop) htop
+  refine ⟨f.trans (frame_emit _ _), ?_, rfl⟩
+  show st.code.length < (emit (opr false c reg st).1 _).code.length
+  simp; omega
+
+theorem ef_of_unop (e c : Cond) (mk : Nat → Nat → Instr) (hc : ExprFrame c) (st : CState) (reg : Nat) (ec : ExpCtx) (htop : st.regTop ≤ reg)
+    (hcomp : comp e (.expr reg ec) st = unopExpr mk c.isLogical (fun s => comp c (.expr reg ecnone0) s) reg ec st)
+    (hkn : konstOf e = none) (hloc : isLoc e = false) (hcat : isConcat e = false)
+    (hmk1 : ∀ a b x y, mk a b ≠ .move x y) (hmk2 : ∀ a b x y, mk a b ≠ .loadk x y) (hmk3 : ∀ a b x y z, mk a b ≠ .concat x y z) :
+    EF e st reg ec := by
+  obtain ⟨f, hlt, hst⟩ := unop_frame mk c hc st reg ec htop
+  refine ⟨by rw [hcomp]; exact f, by rw [hcomp]; exact hlt, by rw [hcomp]; rfl, ?_, ?_, ?_, ?_, ?_, ?_⟩
+  · intro _ _ _; rw [hcomp, hst]; exact lastOK_emit _ _ (hmk1 _ _) (hmk2 _ _)
+  · intro k hk; rw [hkn] at hk; cases hk
+  · intro r hr; subst hr; simp [isLoc] at hloc
+  · intro _; rw [hcomp, hst]; exact noCat_emit _ _ (hmk3 _ _)
+  · intro l r h; subst h; simp [isConcat] at hcat
+  · intro _ _ a b; rw [hcomp, hst]; simp; exact hmk1 _ _ a b
+
+theorem notExpr_general (c : Cond) (sub : CState → Res) (reg : Nat) (ec : ExpCtx) (st : CState)
+    (hne : c ≠ .tru ∧ c ≠ .fls ∧ c ≠ .nil) :
+    notExpr c sub reg ec st = unopExpr .not c.isLogical sub reg ec st := by
+  cases c <;> simp_all [notExpr, unopExpr]
+
+theorem ef_not (c : Cond) (hc : ExprFrame c) : ExprFrame (.not c) := by
+  intro st reg ec htop
+  have simple : ∀ bb, comp (.not c) (.expr reg ec) st = { st := emit st (.loadbool (savereg ec reg) bb 0), inc := if savereg ec reg < reg then 0 else 1 } →
+      EF (.not c) st reg ec := by
+    intro bb h
+    refine ⟨by rw [h]; exact frame_emit _ _, by rw [h]; simp, by rw [h], ?_, ?_, ?_, ?_, ?_, ?_⟩
+    · intro _ _ _; rw [h]; exact lastOK_emit_loadbool _ _ _ _
+    · intro k hk; simp [konstOf, lnum] at hk
+    · intro r hr; cases hr
+    · intro _; rw [h]; exact noCat_emit _ _ (by simp)
+    · intro l r h'; cases h'
+    · intro _ _ a b; rw [h]; simp
   by_cases h1 : c = .tru
-  · subst h1; exact ⟨frame_emit _ _, by simp [notExpr], rfl, lastOK_emit_loadbool _ _ _ _⟩
+  · subst h1; exact simple 0 (by simp [comp, notExpr])
   by_cases h2 : c = .fls
-  · subst h2; exact ⟨frame_emit _ _, by simp [notExpr], rfl, lastOK_emit_loadbool _ _ _ _⟩
+  · subst h2; exact simple 1 (by simp [comp, notExpr])
   by_cases h3 : c = .nil
-  · subst h3; exact ⟨frame_emit _ _, by simp [notExpr], rfl, lastOK_emit_loadbool _ _ _ _⟩
-  rw [general ⟨h1, h2, h3⟩]
-  obtain ⟨f, hle⟩ := notOperand_frame c hc st reg htop
-  exact ⟨f.trans (frame_emit _ _), by simp; omega, rfl, lastOK_emit_not _ _ _⟩
+  · subst h3; exact simple 1 (by simp [comp, notExpr])
+  exact ef_of_unop (.not c) c .not hc st reg ec htop (by simp only [comp]; exact notExpr_general c _ reg ec st ⟨h1, h2, h3⟩)
+    (by simp [konstOf, lnum]) rfl rfl (by simp) (by simp) (by simp)
 
+theorem ef_len (c : Cond) (hc : ExprFrame c) : ExprFrame (.len c) := by
+  intro st reg ec htop
+  exact ef_of_unop (.len c) c .len hc st reg ec htop (by simp only [comp])
+    (by simp [konstOf, lnum]) rfl rfl (by simp) (by simp) (by simp)
+
+theorem ef_unm (c : Cond) (hc : ExprFrame c) : ExprFrame (.unm c) := by
+  intro st reg ec htop
+  cases hf : lnum (.unm c) with
+  | some x =>
+    exact ef_of_loadK (.unm c) x (by simp [konstOf, hf]) st reg ec (by simp only [comp, hf, unmExpr]) rfl
+  | none =>
+    exact ef_of_unop (.unm c) c .unm hc st reg ec htop (by simp only [comp, hf, unmExpr])
+      (by simp [konstOf, hf]) rfl rfl (by simp) (by simp) (by simp)
+
+theorem ef_arith (op : ArithOp) (l r : Cond) (hl : ExprFrame l) (hr : ExprFrame r) : ExprFrame (.arith op l r) := by
+  intro st reg ec htop
+  cases hf : lnum (.arith op l r) with
+  | some x =>
+    exact ef_of_loadK (.arith op l r) x (by simp [konstOf, hf]) st reg ec (by simp only [comp, hf, arithExpr]) rfl
+  | none =>
+    have hcomp : comp (.arith op l r) (.expr reg ec) st =
+        { st := emit (bops l r st reg).1 (.arith op (savereg ec reg) (bops l r st reg).2.1 (bops l r st reg).2.2),
+          inc := if savereg ec reg < reg then 0 else 1 } := by
+      simp only [comp, hf, arithExpr]; rfl
+    obtain ⟨f, hle⟩ := bops_frame l r hl hr st reg htop
+    refine ⟨by rw [hcomp]; exact f.trans (frame_emit _ _), by rw [hcomp]; simp; omega, by rw [hcomp], ?_, ?_, ?_, ?_, ?_, ?_⟩
+    · intro _ _ _; rw [hcomp]; exact lastOK_emit _ _ (by simp) (by simp)
+    · intro k hk; simp [konstOf, hf] at hk
+    · intro r' hr'; cases hr'
+    · intro _; rw [hcomp]; exact noCat_emit _ _ (by simp)
+    · intro l' r' h'; cases h'
+    · intro _ _ a b; rw [hcomp]; simp
+
+theorem ef_rel (op : RelOp) (l r : Cond) (hl : ExprFrame l) (hr : ExprFrame r) : ExprFrame (.rel op l r) := by
+  intro st reg ec htop
+  have hcomp : comp (.rel op l r) (.expr reg ec) st =
+      { st := emit (setLabelHere (emit (relCode op l r { st with labelId := st.labelId + 1 } reg 1 st.labelId)
+                (.loadbool (savereg ec reg) 0 1)) st.labelId) (.loadbool (savereg ec reg) 1 0),
+        inc := if savereg ec reg < reg then 0 else 1 } := by
+    simp only [comp, newLabel, relAux_eq]; rfl
+  obtain ⟨fr, hlt⟩ := relCode_frame op l r hl hr { st with labelId := st.labelId + 1 } reg 1 st.labelId htop
+  have fa : Frame st.labelId st { st with labelId := st.labelId + 1 } := frame_newLabel st
+  refine ⟨?_, ?_, by rw [hcomp], ?_, ?_, ?_, ?_, ?_, ?_⟩
+  · rw [hcomp]
+    exact (fa.trans (fr.mono (Nat.le_succ _))).trans ((frame_emit _ _).trans ((frame_setLabelHere _ _ (Nat.le_refl _)).trans (frame_emit _ _)))
+  · rw [hcomp]
+    simp only [emit_code, setLabelHere_code, List.length_append, List.length_singleton]
+    simp at hlt; omega
+  · intro _ _ _; rw [hcomp]; exact lastOK_emit_loadbool _ _ _ _
+  · intro k hk; simp [konstOf, lnum] at hk
+  · intro r' hr'; cases hr'
+  · intro _; rw [hcomp]; exact noCat_emit _ _ (by simp)
+  · intro l' r' h'; cases h'
+  · intro _ _ a b; rw [hcomp]; simp
+
+/-- `compileStringConcatOpExpr`: the two operands, then the trailing CONCAT of a right operand that is itself a
+    concatenation is removed, then one CONCAT over the whole chain. -/
+theorem concat_code (l r : Cond) (hl : ExprFrame l) (hr : ExprFrame r) (st : CState) (reg : Nat) (ec : ExpCtx) (htop : st.regTop ≤ reg) :
+    ∃ pre, (comp (.concat l r) (.expr reg ec) st).st =
+        emit { (comp r (.expr (reg + 1) ecnone0) (comp l (.expr reg ecnone0) st).st).st with code := pre } (.concat (savereg ec reg) reg (reg + (1 + spine r))) ∧
+      (comp l (.expr reg ecnone0) st).st.code.length < pre.length ∧ NoCat pre ∧
+      (comp l (.expr reg ecnone0) st).st.code <+: pre ∧
+      ((isConcat r = false ∧ pre = (comp r (.expr (reg + 1) ecnone0) (comp l (.expr reg ecnone0) st).st).st.code) ∨
+       (∃ l' r', r = .concat l' r' ∧
+          (comp r (.expr (reg + 1) ecnone0) (comp l (.expr reg ecnone0) st).st).st.code = pre ++ [.concat (reg + 1) (reg + 1) (reg + 1 + (1 + spine r'))])) := by
+  have e1 := hl st reg ecnone0 htop
+  have hinc1 : (comp l (.expr reg ecnone0) st).inc = 1 := by rw [e1.inc, savereg_ecnone0]; simp
+  have htop2 : (comp l (.expr reg ecnone0) st).st.regTop ≤ reg + 1 := by rw [e1.frame.regTop]; omega
+  have e2 := hr (comp l (.expr reg ecnone0) st).st (reg + 1) ecnone0 htop2
+  have hcomp : (comp (.concat l r) (.expr reg ec) st).st =
+      emit (popConcats (comp r (.expr (reg + 1) ecnone0) (comp l (.expr reg ecnone0) st).st).st) (.concat (savereg ec reg) reg (reg + (1 + spine r))) := by
+    simp only [comp, concatExpr, hinc1]
+  cases hcr : isConcat r with
+  | false =>
+    have hn := e2.nocat hcr
+    refine ⟨(comp r (.expr (reg + 1) ecnone0) (comp l (.expr reg ecnone0) st).st).st.code, ?_, e2.lt, hn, e2.frame.code, Or.inl ⟨rfl, rfl⟩⟩
+    rw [hcomp]; unfold popConcats; rw [dropConcats_noCat _ _ hn]
+  | true =>
+    cases r <;> simp [isConcat] at hcr
+    rename_i l' r'
+    obtain ⟨pre, hpre, hlt, hnc⟩ := e2.cat l' r' rfl
+    rw [savereg_ecnone0] at hpre
+    have hne : pre ≠ [] := by intro h0; subst h0; simp at hlt
+    have hpfx : (comp l (.expr reg ecnone0) st).st.code <+: pre := by
+      have := e2.frame.code
+      rw [hpre] at this
+      have h2 := prefix_dropLast this (by simp; omega)
+      simpa using h2
+    refine ⟨pre, ?_, hlt, hnc, hpfx, Or.inr ⟨l', r', rfl, hpre⟩⟩
+    rw [hcomp]; unfold popConcats; rw [hpre, dropConcats_one _ _ _ _ hne hnc]
+
+theorem ef_concat (l r : Cond) (hl : ExprFrame l) (hr : ExprFrame r) : ExprFrame (.concat l r) := by
+  intro st reg ec htop
+  have e1 := hl st reg ecnone0 htop
+  have htop2 : (comp l (.expr reg ecnone0) st).st.regTop ≤ reg + 1 := by rw [e1.frame.regTop]; omega
+  have e2 := hr (comp l (.expr reg ecnone0) st).st (reg + 1) ecnone0 htop2
+  obtain ⟨pre, hst, hlt, hnc, hpfx, _⟩ := concat_code l r hl hr st reg ec htop
+  have hinc : (comp (.concat l r) (.expr reg ec) st).inc = (if savereg ec reg < reg then 0 else 1) := by
+    simp only [comp, concatExpr]
+  have hcode : (comp (.concat l r) (.expr reg ec) st).st.code = pre ++ [.concat (savereg ec reg) reg (reg + (1 + spine r))] := by
+    rw [hst]; rfl
+  have hlast : last (comp (.concat l r) (.expr reg ec) st).st = some (.concat (savereg ec reg) reg (reg + (1 + spine r))) := by
+    simp [last, hcode]
+  refine ⟨?_, ?_, hinc, ?_, ?_, ?_, ?_, ?_, ?_⟩
+  · rw [hst]
+    have f12 := e1.frame.trans (e2.frame.mono e1.frame.labelId)
+    exact ⟨by simp only [emit_code]; exact (e1.frame.code.trans hpfx).trans (List.prefix_append _ _), f12.labelId,
+      f12.labels, f12.regTop, f12.consts⟩
+  · rw [hcode]; have := e1.lt; simp; omega
+  · intro _ _ _
+    constructor <;> intro a b <;> rw [hlast] <;> simp
+  · intro k hk; simp [konstOf, lnum] at hk
+  · intro r' hr'; cases hr'
+  · intro h; simp [isConcat] at h
+  · intro l' r' h
+    cases h
+    exact ⟨pre, hcode, by have := e1.lt; omega, hnc⟩
+  · intro _ _ a b; rw [hlast]; simp
+
+/-! ### compileLogicalOpExprAux -/
 
 theorem ite_emit (c : Prop) [Decidable c] (s : CState) (i1 i2 : Instr) :
     (if c then emit s i1 else emit s i2) = emit s (if c then i1 else i2) := by
@@ -175,220 +559,341 @@ theorem moveTo_move (st : CState) (sreg a b' : Nat) : moveTo (emit st (.move a b
   simp [moveTo]
 
 theorem moveTo_frame {lo : Nat} (s0 s : CState) (sreg a : Nat) (f : Frame lo s0 s) (hlt : s0.code.length < s.code.length) :
-    Frame lo s0 (moveTo s sreg a) ∧ s0.code.length < (moveTo s sreg a).code.length := by
+    Frame lo s0 (moveTo s sreg a) ∧ s0.code.length < (moveTo s sreg a).code.length ∧
+    ∃ pre x y, (moveTo s sreg a).code = pre ++ [.move x y] ∧ s0.code.length ≤ pre.length := by
   unfold moveTo
   split
   · split
-    · exact ⟨(frame_pop f hlt).trans (frame_emit _ _), by
-        simp only [emit_code, pop_code, List.length_append, List.length_dropLast, List.length_singleton]; omega⟩
-    · exact ⟨f.trans (frame_emit _ _), by simp; omega⟩
-  · exact ⟨f.trans (frame_emit _ _), by simp; omega⟩
+    · refine ⟨(frame_pop f hlt).trans (frame_emit _ _), by
+        simp only [emit_code, pop_code, List.length_append, List.length_dropLast, List.length_singleton]; omega, ?_⟩
+      exact ⟨_, _, _, rfl, by simp; omega⟩
+    · exact ⟨f.trans (frame_emit _ _), by simp; omega, _, _, _, rfl, by omega⟩
+  · exact ⟨f.trans (frame_emit _ _), by simp; omega, _, _, _, rfl, by omega⟩
 
 theorem auxDefault_frame (sub : ExpCtx → CState → Res) (reg : Nat) (ec : ExpCtx) (thenl elsel : Nat) (hasnext : Bool)
     (lb : LbLabels) (b : Bool) (st : CState)
     (hsub : ∀ ec', Frame st.labelId st (sub ec' st).st ∧ st.code.length < (sub ec' st).st.code.length) :
     Frame st.labelId st (auxDefault sub reg ec thenl elsel hasnext lb b st).st ∧
     st.code.length < (auxDefault sub reg ec thenl elsel hasnext lb b st).st.code.length ∧
-    (auxDefault sub reg ec thenl elsel hasnext lb b st).b = b := by
+    (auxDefault sub reg ec thenl elsel hasnext lb b st).b = b ∧
+    (hasnext = false → thenl = lb.e → elsel = lb.e →
+      ∃ pre i, (auxDefault sub reg ec thenl elsel hasnext lb b st).st.code = pre ++ [i, .jmp (lb.e : Int)] ∧
+        st.code.length ≤ pre.length ∧ ∀ x y z, i ≠ .concat x y z) := by
   unfold auxDefault
   simp only []
   split
-  · obtain ⟨f, hlt⟩ := hsub ⟨ec.ctype, max reg (savereg ec reg)⟩
-    obtain ⟨f', hlt'⟩ := moveTo_frame st _ (savereg ec reg) reg f hlt
-    exact ⟨f'.trans (frame_emit _ _), by simp; omega, rfl⟩
-  · obtain ⟨f, hlt⟩ := hsub ecnone0
+  · rename_i hcond
+    obtain ⟨f, hlt⟩ := hsub ⟨ec.ctype, max reg (savereg ec reg)⟩
+    obtain ⟨f', hlt', pre, x, y, hpre, hple⟩ := moveTo_frame st _ (savereg ec reg) reg f hlt
+    refine ⟨f'.trans (frame_emit _ _), by simp; omega, rfl, ?_⟩
+    intro hn _ he
+    refine ⟨pre, .move x y, ?_, hple, by simp⟩
+    simp only [emit_code, hpre, hn, Bool.false_eq_true, if_false, he]
+    simp
+  · rename_i hcond
+    obtain ⟨f, hlt⟩ := hsub ecnone0
     rw [ite_emit]
-    exact ⟨(f.trans (frame_emit _ _)).trans (frame_emit _ _), by simp; omega, rfl⟩
+    refine ⟨(f.trans (frame_emit _ _)).trans (frame_emit _ _), by simp; omega, rfl, ?_⟩
+    intro hn ht he
+    exact absurd ⟨hn, ht.trans he.symm⟩ hcond
 
-theorem comp_frame : ∀ (e : Cond), BCFrag e → ExprFrame e ∧ AuxFrame e := by
+/-- an operand handled by the default case of compileLogicalOpExprAux. -/
+theorem af_of_default (e : Cond) (sub : ExpCtx → CState → Res) (st : CState) (reg : Nat) (ec : ExpCtx) (thenl elsel : Nat)
+    (hasnext : Bool) (lb : LbLabels) (b : Bool)
+    (hcomp : comp e (.aux reg ec thenl elsel hasnext lb b) st = auxDefault sub reg ec thenl elsel hasnext lb b st)
+    (hsub : ∀ ec', Frame st.labelId st (sub ec' st).st ∧ st.code.length < (sub ec' st).st.code.length) :
+    AF e st reg ec thenl elsel hasnext lb b := by
+  obtain ⟨f, hlt, hb, hlast⟩ := auxDefault_frame sub reg ec thenl elsel hasnext lb b st hsub
+  exact ⟨by rw [hcomp]; exact f, by rw [hcomp]; exact hlt, fun h => by rw [hcomp, hb]; exact h,
+    fun h1 h2 h3 => Or.inr (by rw [hcomp]; exact hlast h1 h2 h3)⟩
+
+theorem af_of_exprFrame (e : Cond) (he : ExprFrame e) (sub : ExpCtx → CState → Res) (st : CState) (reg : Nat) (ec : ExpCtx) (thenl elsel : Nat)
+    (hasnext : Bool) (lb : LbLabels) (b : Bool) (htop : st.regTop ≤ reg)
+    (hcomp : comp e (.aux reg ec thenl elsel hasnext lb b) st = auxDefault sub reg ec thenl elsel hasnext lb b st)
+    (hsubeq : ∀ ec' s, sub ec' s = comp e (.expr reg ec') s) :
+    AF e st reg ec thenl elsel hasnext lb b :=
+  af_of_default e sub st reg ec thenl elsel hasnext lb b hcomp (fun ec' => by
+    rw [hsubeq]; exact ⟨(he st reg ec' htop).frame, (he st reg ec' htop).lt⟩)
+
+/-- a constant operand: `JMP x` alone, or the load followed by `JMP endlabel`. -/
+theorem af_const (e : Cond) (st : CState) (reg : Nat) (ec : ExpCtx) (thenl elsel : Nat) (hasnext : Bool) (lb : LbLabels) (b : Bool)
+    (he : isLeaf e = true)
+    (h : (∃ L b', comp e (.aux reg ec thenl elsel hasnext lb b) st = { st := emit st (.jmp (L : Int)), b := b' } ∧ (b = true → b' = true) ∧
+            (hasnext = false → thenl = lb.e → elsel = lb.e → b' = true)) ∨
+         (comp e (.aux reg ec thenl elsel hasnext lb b) st = { st := emit (leafExpr e reg ec st).st (.jmp (lb.e : Int)), b := b } ∧
+            ∀ x y z, last (leafExpr e reg ec st).st ≠ some (.concat x y z))) :
+    AF e st reg ec thenl elsel hasnext lb b := by
+  rcases h with ⟨L, b', h, hb, hl⟩ | ⟨h, hnc⟩
+  · exact ⟨by rw [h]; exact frame_emit _ _, by rw [h]; simp, fun hb0 => by rw [h]; exact hb hb0,
+      fun h1 h2 h3 => Or.inl (by rw [h]; exact hl h1 h2 h3)⟩
+  · obtain ⟨f, hl, _⟩ := leafExpr_frame (lo := st.labelId) e he reg ec st
+    refine ⟨by rw [h]; exact f.trans (frame_emit _ _), by rw [h]; simp; omega, fun hb0 => by rw [h]; exact hb0, fun _ _ _ => Or.inr ?_⟩
+    rw [h]
+    have hcode := f.code
+    obtain ⟨t, ht⟩ := hcode
+    have htl : t.length = 1 := by
+      have := congrArg List.length ht; simp at this; omega
+    match t, htl with
+    | [i], _ =>
+      refine ⟨st.code, i, by simp [← ht], Nat.le_refl _, ?_⟩
+      intro x y z hi
+      apply hnc x y z
+      simp [last, ← ht, hi]
+
+theorem aux_loc_eq (r : Nat) (st : CState) (reg : Nat) (ec : ExpCtx) (thenl elsel : Nat) (hasnext : Bool) (lb : LbLabels) (b : Bool) :
+    comp (.loc r) (.aux reg ec thenl elsel hasnext lb b) st =
+      if (elsel = lb.e ∧ thenl ≠ elsel) ∨ (thenl = lb.e ∧ hasnext = true) then
+        { st := emit (emit st (if savereg ec reg = r then .test (savereg ec reg) r (flipOf hasnext)
+                                else .testset (savereg ec reg) r (flipOf hasnext)))
+                  (.jmp ((if hasnext then thenl else elsel : Nat) : Int)), b := b }
+      else auxDefault (fun ec' s => leafExpr (.loc r) reg ec' s) reg ec thenl elsel hasnext lb b st := by
+  simp only [comp, ite_emit]
+  cases hasnext <;> rfl
+
+/-- the (flip, jump label, lb.b) that compileLogicalOpExprAux chooses for a relational operand. -/
+def relChoice (thenl elsel : Nat) (hasnext : Bool) (lb : LbLabels) (b : Bool) : Nat × Nat × Bool :=
+  if thenl = elsel then (1 - flipOf hasnext, lb.t, true)
+  else if thenl = lb.e then (flipOf hasnext, lb.t, true)
+  else if elsel = lb.e then (flipOf hasnext, lb.f, true)
+  else (flipOf hasnext, if hasnext then thenl else elsel, b)
+
+theorem aux_rel_eq (op : RelOp) (l r : Cond) (st : CState) (reg : Nat) (ec : ExpCtx)
+    (thenl elsel : Nat) (hasnext : Bool) (lb : LbLabels) (b : Bool) :
+    comp (.rel op l r) (.aux reg ec thenl elsel hasnext lb b) st =
+      { st := relCode op l r st reg (relChoice thenl elsel hasnext lb b).1 (relChoice thenl elsel hasnext lb b).2.1,
+        b := (relChoice thenl elsel hasnext lb b).2.2 } := by
+  simp only [comp, relAux_eq, relChoice, relCode]
+
+theorem AF_iff (e : Cond) (st : CState) (reg : Nat) (ec : ExpCtx) (thenl elsel : Nat) (hasnext : Bool) (lb : LbLabels) (b : Bool) :
+    AF e st reg ec thenl elsel hasnext lb b ↔
+      (Frame st.labelId st (comp e (.aux reg ec thenl elsel hasnext lb b) st).st ∧
+       st.code.length < (comp e (.aux reg ec thenl elsel hasnext lb b) st).st.code.length ∧
+       (b = true → (comp e (.aux reg ec thenl elsel hasnext lb b) st).b = true) ∧
+       (hasnext = false → thenl = lb.e → elsel = lb.e →
+        (comp e (.aux reg ec thenl elsel hasnext lb b) st).b = true ∨
+        ∃ pre i, (comp e (.aux reg ec thenl elsel hasnext lb b) st).st.code = pre ++ [i, .jmp (lb.e : Int)] ∧
+          st.code.length ≤ pre.length ∧ ∀ x y z, i ≠ .concat x y z)) :=
+  ⟨fun h => ⟨h.frame, h.lt, h.bmono, h.lastop⟩, fun ⟨h1, h2, h3, h4⟩ => ⟨h1, h2, h3, h4⟩⟩
+
+/-- frames of the two operands of a logical operator inside compileLogicalOpExpr(Aux). -/
+theorem af_logical (l r : Cond) (al : AuxFrame l) (ar : AuxFrame r) (st : CState) (reg : Nat) (ec : ExpCtx)
+    (t1 e1 : Nat) (h1 : Bool) (thenl elsel : Nat) (hasnext : Bool) (lb : LbLabels) (b : Bool) (htop : st.regTop ≤ reg)
+    (res : Res)
+    (hres : res = comp r (.aux reg ec thenl elsel hasnext lb (comp l (.aux reg ec t1 e1 h1 lb b) { st with labelId := st.labelId + 1 }).b)
+        (setLabelHere (comp l (.aux reg ec t1 e1 h1 lb b) { st with labelId := st.labelId + 1 }).st st.labelId)) :
+    Frame st.labelId st res.st ∧ st.code.length < res.st.code.length ∧ (b = true → res.b = true) ∧
+    (hasnext = false → thenl = lb.e → elsel = lb.e →
+      res.b = true ∨ ∃ pre i, res.st.code = pre ++ [i, .jmp (lb.e : Int)] ∧ st.code.length ≤ pre.length ∧ ∀ x y z, i ≠ .concat x y z) := by
+  generalize hsa : ({ st with labelId := st.labelId + 1 } : CState) = sa at hres
+  have hsa_id : sa.labelId = st.labelId + 1 := by subst hsa; rfl
+  have hsa_top : sa.regTop = st.regTop := by subst hsa; rfl
+  have hsa_code : sa.code = st.code := by subst hsa; rfl
+  have fa : Frame st.labelId st sa := by subst hsa; exact frame_newLabel st
+  have a1 := al sa reg ec t1 e1 h1 lb b (by rw [hsa_top]; exact htop)
+  generalize hr1 : comp l (.aux reg ec t1 e1 h1 lb b) sa = r1 at hres a1
+  have f1 := a1.frame; have hlt1 := a1.lt; have hb1 := a1.bmono
+  rw [hr1] at f1 hlt1 hb1
+  have fc : Frame st.labelId r1.st (setLabelHere r1.st st.labelId) := frame_setLabelHere _ _ (Nat.le_refl _)
+  have a2 := ar (setLabelHere r1.st st.labelId) reg ec thenl elsel hasnext lb r1.b
+    (by rw [fc.regTop, f1.regTop, hsa_top]; exact htop)
+  rw [AF_iff, ← hres] at a2
+  obtain ⟨a2f, hlt2, a2b, a2l⟩ := a2
+  have f2' := a2f.mono (lo' := st.labelId) (by have := f1.labelId; simp at *; omega)
+  simp only [setLabelHere_code] at hlt2
+  refine ⟨(fa.trans (f1.mono (by omega))).trans (fc.trans f2'), by rw [hsa_code] at hlt1; omega,
+    fun h => a2b (hb1 h), fun hn ht he => ?_⟩
+  rcases a2l hn ht he with h | ⟨pre, i, hc, hle, hi⟩
+  · exact Or.inl h
+  · exact Or.inr ⟨pre, i, hc, by simp only [setLabelHere_code] at hle; rw [hsa_code] at hlt1; omega, hi⟩
+
+/-- `compileLogicalOpExpr` (both operators): frame facts. `e` is `.and l r` or `.or l r`; the hypothesis says how
+    `comp` unfolds (t1 e1 h1 = the labels / hasnextcond handed to the left operand). -/
+theorem logical_ef (l r : Cond) (al : AuxFrame l) (ar : AuxFrame r) (e : Cond)
+    (hcomp : ∀ (st : CState) (reg : Nat) (ec : ExpCtx), ∃ (t1 e1 : Nat) (h1 : Bool) (hl : e.isLogical = true) (hc : isConcat e = false),
+      comp e (.expr reg ec) st =
+        { st := logicalTail (comp r (.aux reg ec st.labelId st.labelId false ⟨st.labelId + 1, st.labelId + 1 + 1, st.labelId⟩
+              (comp l (.aux reg ec t1 e1 h1 ⟨st.labelId + 1, st.labelId + 1 + 1, st.labelId⟩ false)
+                { st with labelId := st.labelId + 1 + 1 + 1 + 1 }).b)
+              (setLabelHere (comp l (.aux reg ec t1 e1 h1 ⟨st.labelId + 1, st.labelId + 1 + 1, st.labelId⟩ false)
+                { st with labelId := st.labelId + 1 + 1 + 1 + 1 }).st (st.labelId + 1 + 1 + 1))).st (savereg ec reg)
+              ⟨st.labelId + 1, st.labelId + 1 + 1, st.labelId⟩
+              (comp r (.aux reg ec st.labelId st.labelId false ⟨st.labelId + 1, st.labelId + 1 + 1, st.labelId⟩
+              (comp l (.aux reg ec t1 e1 h1 ⟨st.labelId + 1, st.labelId + 1 + 1, st.labelId⟩ false)
+                { st with labelId := st.labelId + 1 + 1 + 1 + 1 }).b)
+              (setLabelHere (comp l (.aux reg ec t1 e1 h1 ⟨st.labelId + 1, st.labelId + 1 + 1, st.labelId⟩ false)
+                { st with labelId := st.labelId + 1 + 1 + 1 + 1 }).st (st.labelId + 1 + 1 + 1))).b,
+          inc := if savereg ec reg < reg then 0 else 1 }) :
+    ExprFrame e := by
+  intro st reg ec htop
+  obtain ⟨t1, e1, h1, hlog, hncat, hc⟩ := hcomp st reg ec
+  generalize hlb : (⟨st.labelId + 1, st.labelId + 1 + 1, st.labelId⟩ : LbLabels) = lb at hc
+  have hlbe : lb.e = st.labelId := by subst hlb; rfl
+  have hlbt : lb.t = st.labelId + 1 := by subst hlb; rfl
+  have hlbf : lb.f = st.labelId + 2 := by subst hlb; rfl
+  generalize hs4 : ({ st with labelId := st.labelId + 1 + 1 + 1 + 1 } : CState) = s4 at hc
+  have hs4_id : s4.labelId = st.labelId + 4 := by subst hs4; rfl
+  have hs4_top : s4.regTop = st.regTop := by subst hs4; rfl
+  have hs4_code : s4.code = st.code := by subst hs4; rfl
+  have fa : Frame st.labelId st s4 := by
+    subst hs4; exact ⟨List.prefix_refl _, by simp; omega, fun _ _ => rfl, rfl, List.prefix_refl _⟩
+  have a1 := al s4 reg ec t1 e1 h1 lb false (by rw [hs4_top]; exact htop)
+  generalize hr1 : comp l (.aux reg ec t1 e1 h1 lb false) s4 = r1 at hc a1
+  have f1 := a1.frame; have hlt1 := a1.lt
+  rw [hr1] at f1 hlt1
+  have fc : Frame st.labelId r1.st (setLabelHere r1.st (st.labelId + 1 + 1 + 1)) := frame_setLabelHere _ _ (by omega)
+  have a2 := ar (setLabelHere r1.st (st.labelId + 1 + 1 + 1)) reg ec st.labelId st.labelId false lb r1.b
+    (by rw [fc.regTop, f1.regTop, hs4_top]; exact htop)
+  generalize hr2 : comp r (.aux reg ec st.labelId st.labelId false lb r1.b) (setLabelHere r1.st (st.labelId + 1 + 1 + 1)) = r2 at hc a2
+  have f2 := a2.frame; have hlt2 := a2.lt
+  rw [hr2] at f2 hlt2
+  have f2' : Frame st.labelId (setLabelHere r1.st (st.labelId + 1 + 1 + 1)) r2.st :=
+    f2.mono (by have := f1.labelId; simp at *; omega)
+  obtain ⟨ft, hle⟩ := logicalTail_frame (lo := st.labelId) (setLabelHere r1.st (st.labelId + 1 + 1 + 1)) r2.st (savereg ec reg)
+    lb r2.b f2' hlt2 ⟨by omega, by omega, by omega⟩
+  simp only [setLabelHere_code] at hle hlt2
+  -- the last instruction after the tail
+  have hlast : NoCat (logicalTail r2.st (savereg ec reg) lb r2.b).code := by
+    unfold logicalTail
+    simp only [setLabelHere_code]
+    cases hb : r2.b with
+    | true =>
+      have : tailPop (tailBools r2.st (savereg ec reg) lb true) lb.e = tailBools r2.st (savereg ec reg) lb true := by
+        rcases tailPop_cases (tailBools r2.st (savereg ec reg) lb true) lb.e with h | ⟨_, c, hc'⟩
+        · exact h
+        · exfalso
+          simp [tailBools] at hc'
+          have := congrArg List.getLast? hc'
+          simp at this
+      rw [this]
+      simp only [tailBools, if_true]
+      exact noCat_emit _ _ (by simp)
+    | false =>
+      simp only [tailBools, Bool.false_eq_true, if_false]
+      have hl := a2.lastop rfl hlbe.symm hlbe.symm
+      rw [hr2, hb] at hl
+      rcases hl with h | ⟨pre, i, hcode, _, hi⟩
+      · cases h
+      · have : tailPop r2.st lb.e = pop r2.st := by
+          unfold tailPop
+          simp [last, hcode]
+        rw [this]
+        simp only [pop_code, hcode]
+        have : (pre ++ [i, Instr.jmp (lb.e : Int)]).dropLast = pre ++ [i] := by
+          rw [show pre ++ [i, Instr.jmp (lb.e : Int)] = (pre ++ [i]) ++ [Instr.jmp (lb.e : Int)] by simp]
+          exact List.dropLast_concat
+        rw [this]
+        exact noCat_append_singleton _ _ hi
+  refine ⟨?_, ?_, by rw [hc], ?_, ?_, ?_, ?_, ?_, ?_⟩
+  · rw [hc]; exact (fa.trans (f1.mono (by omega))).trans (fc.trans ft)
+  · rw [hc]; rw [hs4_code] at hlt1; simp only []; omega
+  · intro _ h; rw [hlog] at h; cases h
+  · intro k hk; have := konstOf_notLogical hk; rw [hlog] at this; cases this
+  · intro r' hr'; subst hr'; simp [Cond.isLogical] at hlog
+  · intro _; rw [hc]; exact hlast
+  · intro l' r' h'; subst h'; simp [isConcat] at hncat
+  · intro _ h; rw [hlog] at h; cases h
+
+theorem comp_frame : ∀ (e : Cond), ExprFrame e ∧ AuxFrame e := by
   intro e
   induction e with
   | tru =>
-    intro _
-    refine ⟨fun st reg ec _ => ?_, fun st reg ec thenl elsel hasnext lb b _ => ?_⟩
-    · obtain ⟨f, hl, hi⟩ := leafExpr_frame (lo := st.labelId) .tru rfl reg ec st
-      exact ⟨by simpa [comp] using f, by simp only [comp]; omega, by simpa [comp] using hi, fun h => by simp [isLeaf] at h⟩
-    · simp only [comp]; split <;> exact ⟨frame_emit _ _, by simp, fun h => by simp [h]⟩
+    refine ⟨ef_leaf .tru rfl, fun st reg ec thenl elsel hasnext lb b _ => ?_⟩
+    refine af_const .tru st reg ec thenl elsel hasnext lb b rfl (Or.inl ?_)
+    simp only [comp]
+    split
+    · exact ⟨_, _, rfl, fun _ => rfl, fun _ _ _ => rfl⟩
+    · rename_i hne; exact ⟨_, _, rfl, fun h => h, fun _ h _ => absurd h hne⟩
   | fls =>
-    intro _
-    refine ⟨fun st reg ec _ => ?_, fun st reg ec thenl elsel hasnext lb b _ => ?_⟩
-    · obtain ⟨f, hl, hi⟩ := leafExpr_frame (lo := st.labelId) .fls rfl reg ec st
-      exact ⟨by simpa [comp] using f, by simp only [comp]; omega, by simpa [comp] using hi, fun h => by simp [isLeaf] at h⟩
-    · simp only [comp]; split <;> exact ⟨frame_emit _ _, by simp, fun h => by simp [h]⟩
+    refine ⟨ef_leaf .fls rfl, fun st reg ec thenl elsel hasnext lb b _ => ?_⟩
+    refine af_const .fls st reg ec thenl elsel hasnext lb b rfl (Or.inl ?_)
+    simp only [comp]
+    split
+    · exact ⟨_, _, rfl, fun _ => rfl, fun _ _ _ => rfl⟩
+    · rename_i hne; exact ⟨_, _, rfl, fun h => h, fun _ _ h => absurd h hne⟩
   | nil =>
-    intro _
-    refine ⟨fun st reg ec _ => ?_, fun st reg ec thenl elsel hasnext lb b _ => ?_⟩
-    · obtain ⟨f, hl, hi⟩ := leafExpr_frame (lo := st.labelId) .nil rfl reg ec st
-      exact ⟨by simpa [comp] using f, by simp only [comp]; omega, by simpa [comp] using hi, fun h => by simp [isLeaf] at h⟩
-    · simp only [comp]
-      obtain ⟨f, hl, _⟩ := leafExpr_frame (lo := st.labelId) .nil rfl reg ec st
-      split
-      · exact ⟨f.trans (frame_emit _ _), by simp; omega, fun h => h⟩
-      · exact ⟨frame_emit _ _, by simp, fun h => h⟩
+    refine ⟨ef_leaf .nil rfl, fun st reg ec thenl elsel hasnext lb b _ => ?_⟩
+    refine af_const .nil st reg ec thenl elsel hasnext lb b rfl ?_
+    simp only [comp]
+    split
+    · exact Or.inr ⟨rfl, leafExpr_lastnocat .nil rfl reg ec st⟩
+    · rename_i hne; exact Or.inl ⟨_, _, rfl, fun h => h, fun _ _ h => absurd h hne⟩
   | num n =>
-    intro _
-    refine ⟨fun st reg ec _ => ?_, fun st reg ec thenl elsel hasnext lb b _ => ?_⟩
-    · obtain ⟨f, hl, hi⟩ := leafExpr_frame (lo := st.labelId) (.num n) rfl reg ec st
-      exact ⟨by simpa [comp] using f, by simp only [comp]; omega, by simpa [comp] using hi, fun h => by simp [isLeaf] at h⟩
-    · simp only [comp]
-      obtain ⟨f, hl, _⟩ := leafExpr_frame (lo := st.labelId) (.num n) rfl reg ec st
-      split
-      · exact ⟨f.trans (frame_emit _ _), by simp; omega, fun h => h⟩
-      · exact ⟨frame_emit _ _, by simp, fun h => h⟩
+    refine ⟨ef_leaf (.num n) rfl, fun st reg ec thenl elsel hasnext lb b _ => ?_⟩
+    refine af_const (.num n) st reg ec thenl elsel hasnext lb b rfl ?_
+    simp only [comp]
+    split
+    · exact Or.inr ⟨rfl, leafExpr_lastnocat (.num n) rfl reg ec st⟩
+    · rename_i hne; exact Or.inl ⟨_, _, rfl, fun h => h, fun _ h _ => absurd h hne⟩
   | str n =>
-    intro _
-    refine ⟨fun st reg ec _ => ?_, fun st reg ec thenl elsel hasnext lb b _ => ?_⟩
-    · obtain ⟨f, hl, hi⟩ := leafExpr_frame (lo := st.labelId) (.str n) rfl reg ec st
-      exact ⟨by simpa [comp] using f, by simp only [comp]; omega, by simpa [comp] using hi, fun h => by simp [isLeaf] at h⟩
-    · simp only [comp]
-      obtain ⟨f, hl, _⟩ := leafExpr_frame (lo := st.labelId) (.str n) rfl reg ec st
-      split
-      · exact ⟨f.trans (frame_emit _ _), by simp; omega, fun h => h⟩
-      · exact ⟨frame_emit _ _, by simp, fun h => h⟩
+    refine ⟨ef_leaf (.str n) rfl, fun st reg ec thenl elsel hasnext lb b _ => ?_⟩
+    refine af_const (.str n) st reg ec thenl elsel hasnext lb b rfl ?_
+    simp only [comp]
+    split
+    · exact Or.inr ⟨rfl, leafExpr_lastnocat (.str n) rfl reg ec st⟩
+    · rename_i hne; exact Or.inl ⟨_, _, rfl, fun h => h, fun _ h _ => absurd h hne⟩
   | loc r =>
-    intro _
-    refine ⟨fun st reg ec _ => ?_, fun st reg ec thenl elsel hasnext lb b _ => ?_⟩
-    · obtain ⟨f, hl, hi⟩ := leafExpr_frame (lo := st.labelId) (.loc r) rfl reg ec st
-      exact ⟨by simpa [comp] using f, by simp only [comp]; omega, by simpa [comp] using hi, fun h => by simp [isLeaf] at h⟩
-    · simp only [comp]
-      split
-      · split
-        · exact ⟨(frame_emit _ _).trans (frame_emit _ _), by simp, fun h => h⟩
-        · exact ⟨(frame_emit _ _).trans (frame_emit _ _), by simp, fun h => h⟩
-      · obtain ⟨f, hlt, hb⟩ := auxDefault_frame (fun ec' s => leafExpr (.loc r) reg ec' s) reg ec thenl elsel hasnext lb b st
-          (fun ec' => by
-            obtain ⟨f, hl, _⟩ := leafExpr_frame (lo := st.labelId) (.loc r) rfl reg ec' st
-            exact ⟨f, by omega⟩)
-        exact ⟨f, hlt, fun h => by rw [hb]; exact h⟩
+    refine ⟨ef_leaf (.loc r) rfl, fun st reg ec thenl elsel hasnext lb b htop => ?_⟩
+    by_cases hin : (elsel = lb.e ∧ thenl ≠ elsel) ∨ (thenl = lb.e ∧ hasnext = true)
+    · have hcomp : comp (.loc r) (.aux reg ec thenl elsel hasnext lb b) st =
+          { st := emit (emit st (if savereg ec reg = r then .test (savereg ec reg) r (flipOf hasnext)
+                                  else .testset (savereg ec reg) r (flipOf hasnext)))
+                    (.jmp ((if hasnext then thenl else elsel : Nat) : Int)), b := b } := by
+        rw [aux_loc_eq, if_pos hin]
+      refine ⟨by rw [hcomp]; exact (frame_emit _ _).trans (frame_emit _ _), by rw [hcomp]; simp, fun h => by rw [hcomp]; exact h, ?_⟩
+      intro hn ht he
+      exfalso
+      rcases hin with ⟨_, h⟩ | ⟨_, h⟩
+      · exact h (ht.trans he.symm)
+      · rw [hn] at h; cases h
+    · exact af_of_exprFrame (.loc r) (ef_leaf (.loc r) rfl) (fun ec' s => leafExpr (.loc r) reg ec' s) st reg ec thenl elsel hasnext lb b htop
+        (by rw [aux_loc_eq, if_neg hin]) (fun ec' s => by simp [comp])
   | ev id =>
-    intro _
-    refine ⟨fun st reg ec _ => ?_, fun st reg ec thenl elsel hasnext lb b _ => ?_⟩
-    · obtain ⟨f, hl, hi⟩ := leafExpr_frame (lo := st.labelId) (.ev id) rfl reg ec st
-      exact ⟨by simpa [comp] using f, by simp only [comp]; omega, by simpa [comp] using hi, fun h => by simp [isLeaf] at h⟩
-    · simp only [comp]
-      obtain ⟨f, hlt, hb⟩ := auxDefault_frame (fun ec' s => leafExpr (.ev id) reg ec' s) reg ec thenl elsel hasnext lb b st
-        (fun ec' => by
-          obtain ⟨f, hl, _⟩ := leafExpr_frame (lo := st.labelId) (.ev id) rfl reg ec' st
-          exact ⟨f, by omega⟩)
-      exact ⟨f, hlt, fun h => by rw [hb]; exact h⟩
+    refine ⟨ef_leaf (.ev id) rfl, fun st reg ec thenl elsel hasnext lb b htop => ?_⟩
+    exact af_of_exprFrame (.ev id) (ef_leaf (.ev id) rfl) (fun ec' s => leafExpr (.ev id) reg ec' s) st reg ec thenl elsel hasnext lb b htop
+      (by simp only [comp]) (fun ec' s => by simp [comp])
   | not c ih =>
-    intro hf
-    have hc := (ih hf).1
-    refine ⟨fun st reg ec htop => ?_, fun st reg ec thenl elsel hasnext lb b htop => ?_⟩
-    · obtain ⟨f, hlt, hi, hl⟩ := notExpr_frame c hc st reg ec htop
-      simp only [comp]
-      exact ⟨f, hlt, hi, fun _ _ => hl⟩
-    · simp only [comp]
-      obtain ⟨f, hlt, hb⟩ := auxDefault_frame (fun ec' s => notExpr c (fun s' => comp c (.expr reg ecnone0) s') reg ec' s)
-        reg ec thenl elsel hasnext lb b st
-        (fun ec' => by
-          obtain ⟨f, hlt, _, _⟩ := notExpr_frame c hc st reg ec' htop
-          exact ⟨f, hlt⟩)
-      exact ⟨f, hlt, fun h => by rw [hb]; exact h⟩
-  | rel op l r _ _ =>
-    intro hf
-    refine ⟨fun st reg ec htop => ?_, fun st reg ec thenl elsel hasnext lb b htop => ?_⟩
-    · simp only [comp, newLabel, relAux_leaf l r hf.1 hf.2]
-      have fr := relLeaf_frame (lo := st.labelId) l r hf.1 hf.2 { st with labelId := st.labelId + 1 } reg op 1 st.labelId htop
-      have fa : Frame st.labelId st { st with labelId := st.labelId + 1 } := frame_newLabel st
-      have hle := fr.code.length_le
-      refine ⟨(fa.trans fr).trans ((frame_emit _ _).trans ((frame_setLabelHere _ _ (Nat.le_refl _)).trans (frame_emit _ _))), ?_, by first | rfl | trivial,
-        fun _ _ => lastOK_emit_loadbool _ _ _ _⟩
-      simp only [emit_code, setLabelHere_code, List.length_append, List.length_singleton]
-      simp at hle; omega
-    · simp only [comp, relAux_leaf l r hf.1 hf.2]
-      have hlen : ∀ flip L, st.code.length < (relLeaf l r st reg op flip L).code.length := by
-        intro flip L
-        have f1 := opnd_frame (lo := 0) true l reg st hf.1 htop
-        have hle0 := opnd_reg_le true l hf.1 reg st htop
-        have f2 := opnd_frame (lo := 0) true r (opnd true l reg st).2.2 (opnd true l reg st).1 hf.2 (by rw [f1.regTop]; omega)
-        have := (f1.trans f2).code.length_le
-        simp [relLeaf]; omega
-      split <;> rename_i h <;> (try split) <;> (try split) <;>
-        exact ⟨relLeaf_frame l r hf.1 hf.2 st reg op _ _ htop, hlen _ _, fun hb => by simp_all⟩
+    have hex := ef_not c ih.1
+    refine ⟨hex, fun st reg ec thenl elsel hasnext lb b htop => ?_⟩
+    exact af_of_exprFrame (.not c) hex (fun ec' s => notExpr c (fun s' => comp c (.expr reg ecnone0) s') reg ec' s)
+      st reg ec thenl elsel hasnext lb b htop (by simp only [comp]) (fun ec' s => by simp only [comp])
+  | unm c ih =>
+    have hex := ef_unm c ih.1
+    refine ⟨hex, fun st reg ec thenl elsel hasnext lb b htop => ?_⟩
+    exact af_of_exprFrame (.unm c) hex (fun ec' s => unmExpr (lnum (.unm c)) c.isLogical (fun s' => comp c (.expr reg ecnone0) s') reg ec' s)
+      st reg ec thenl elsel hasnext lb b htop (by simp only [comp]) (fun ec' s => by simp only [comp])
+  | len c ih =>
+    have hex := ef_len c ih.1
+    refine ⟨hex, fun st reg ec thenl elsel hasnext lb b htop => ?_⟩
+    exact af_of_exprFrame (.len c) hex (fun ec' s => unopExpr .len c.isLogical (fun s' => comp c (.expr reg ecnone0) s') reg ec' s)
+      st reg ec thenl elsel hasnext lb b htop (by simp only [comp]) (fun ec' s => by simp only [comp])
+  | arith op l r ihl ihr =>
+    have hex := ef_arith op l r ihl.1 ihr.1
+    refine ⟨hex, fun st reg ec thenl elsel hasnext lb b htop => ?_⟩
+    exact af_of_exprFrame (.arith op l r) hex (fun ec' s => arithExpr (lnum (.arith op l r)) op (fun s' g => comp l (.expr g ecnone0) s')
+        (fun s' g => comp r (.expr g ecnone0) s') l.isLogical r.isLogical reg ec' s)
+      st reg ec thenl elsel hasnext lb b htop (by simp only [comp]) (fun ec' s => by simp only [comp])
+  | concat l r ihl ihr =>
+    have hex := ef_concat l r ihl.1 ihr.1
+    refine ⟨hex, fun st reg ec thenl elsel hasnext lb b htop => ?_⟩
+    exact af_of_exprFrame (.concat l r) hex (fun ec' s => concatExpr (1 + spine r) (fun s' g => comp l (.expr g ecnone0) s')
+        (fun s' g => comp r (.expr g ecnone0) s') reg ec' s)
+      st reg ec thenl elsel hasnext lb b htop (by simp only [comp]) (fun ec' s => by simp only [comp])
+  | rel op l r ihl ihr =>
+    refine ⟨ef_rel op l r ihl.1 ihr.1, fun st reg ec thenl elsel hasnext lb b htop => ?_⟩
+    rw [AF_iff, aux_rel_eq]
+    obtain ⟨f, hlt⟩ := relCode_frame op l r ihl.1 ihr.1 st reg (relChoice thenl elsel hasnext lb b).1 (relChoice thenl elsel hasnext lb b).2.1 htop
+    refine ⟨f, hlt, ?_, ?_⟩
+    · intro hb; unfold relChoice; subst hb; split <;> (try split) <;> (try split) <;> rfl
+    · intro _ ht he; left; unfold relChoice; rw [if_pos (ht.trans he.symm)]
   | and l r ihl ihr =>
-    intro hf
-    obtain ⟨-, al⟩ := ihl hf.1
-    obtain ⟨-, ar⟩ := ihr hf.2
-    refine ⟨fun st reg ec htop => ?_, fun st reg ec thenl elsel hasnext lb b htop => ?_⟩
-    · simp only [comp, newLabel]
-      generalize hs4 : ({ st with labelId := st.labelId + 1 + 1 + 1 + 1 } : CState) = s4
-      have hs4_id : s4.labelId = st.labelId + 4 := by subst hs4; rfl
-      have hs4_top : s4.regTop = st.regTop := by subst hs4; rfl
-      have hs4_code : s4.code = st.code := by subst hs4; rfl
-      have fa : Frame st.labelId st s4 := by
-        subst hs4; exact ⟨List.prefix_refl _, by simp; omega, fun _ _ => rfl, rfl, List.prefix_refl _⟩
-      obtain ⟨f1, hlt1, _⟩ := al s4 reg ec (st.labelId + 1 + 1 + 1) st.labelId false ⟨st.labelId + 1, st.labelId + 1 + 1, st.labelId⟩ false
-        (by rw [hs4_top]; exact htop)
-      generalize hr1 : comp l (.aux reg ec (st.labelId + 1 + 1 + 1) st.labelId false ⟨st.labelId + 1, st.labelId + 1 + 1, st.labelId⟩ false) s4 = r1 at f1 hlt1 ⊢
-      have fc : Frame st.labelId r1.st (setLabelHere r1.st (st.labelId + 1 + 1 + 1)) := frame_setLabelHere _ _ (by omega)
-      obtain ⟨f2, hlt2, _⟩ := ar (setLabelHere r1.st (st.labelId + 1 + 1 + 1)) reg ec st.labelId st.labelId false
-        ⟨st.labelId + 1, st.labelId + 1 + 1, st.labelId⟩ r1.b (by rw [fc.regTop, f1.regTop, hs4_top]; exact htop)
-      generalize hr2 : comp r (.aux reg ec st.labelId st.labelId false ⟨st.labelId + 1, st.labelId + 1 + 1, st.labelId⟩ r1.b)
-        (setLabelHere r1.st (st.labelId + 1 + 1 + 1)) = r2 at f2 hlt2 ⊢
-      have f2' : Frame st.labelId (setLabelHere r1.st (st.labelId + 1 + 1 + 1)) r2.st :=
-        f2.mono (by have := f1.labelId; simp at *; omega)
-      obtain ⟨ft, hle⟩ := logicalTail_frame (lo := st.labelId) (setLabelHere r1.st (st.labelId + 1 + 1 + 1)) r2.st (savereg ec reg)
-        ⟨st.labelId + 1, st.labelId + 1 + 1, st.labelId⟩ r2.b f2' hlt2 ⟨Nat.le_refl _, by simp, by simp; omega⟩
-      refine ⟨(fa.trans (f1.mono (by omega))).trans (fc.trans ft), ?_, by first | rfl | trivial, fun _ h => by simp [Cond.isLogical] at h⟩
-      simp only [setLabelHere_code] at hle
-      rw [hs4_code] at hlt1; omega
-    · simp only [comp, newLabel]
-      generalize hsa : ({ st with labelId := st.labelId + 1 } : CState) = sa
-      have hsa_id : sa.labelId = st.labelId + 1 := by subst hsa; rfl
-      have hsa_top : sa.regTop = st.regTop := by subst hsa; rfl
-      have hsa_code : sa.code = st.code := by subst hsa; rfl
-      have fa : Frame st.labelId st sa := by subst hsa; exact frame_newLabel st
-      obtain ⟨f1, hlt1, hb1⟩ := al sa reg ec st.labelId elsel false lb b (by rw [hsa_top]; exact htop)
-      generalize hr1 : comp l (.aux reg ec st.labelId elsel false lb b) sa = r1 at f1 hlt1 hb1 ⊢
-      have fc : Frame st.labelId r1.st (setLabelHere r1.st st.labelId) := frame_setLabelHere _ _ (Nat.le_refl _)
-      obtain ⟨f2, hlt2, hb2⟩ := ar (setLabelHere r1.st st.labelId) reg ec thenl elsel hasnext lb r1.b
-        (by rw [fc.regTop, f1.regTop, hsa_top]; exact htop)
-      have f2' := f2.mono (lo' := st.labelId) (by have := f1.labelId; simp at *; omega)
-      refine ⟨(fa.trans (f1.mono (by omega))).trans (fc.trans f2'), ?_, fun h => hb2 (hb1 h)⟩
-      simp only [setLabelHere_code] at hlt2
-      rw [hsa_code] at hlt1; omega
+    refine ⟨logical_ef l r ihl.2 ihr.2 _ (fun st reg ec => ⟨st.labelId + 1 + 1 + 1, st.labelId, false, rfl, rfl, by simp only [comp, newLabel]⟩),
+      fun st reg ec thenl elsel hasnext lb b htop => ?_⟩
+    rw [AF_iff]
+    exact af_logical l r ihl.2 ihr.2 st reg ec st.labelId elsel false thenl elsel hasnext lb b htop _ (by simp only [comp, newLabel])
   | or l r ihl ihr =>
-    intro hf
-    obtain ⟨-, al⟩ := ihl hf.1
-    obtain ⟨-, ar⟩ := ihr hf.2
-    refine ⟨fun st reg ec htop => ?_, fun st reg ec thenl elsel hasnext lb b htop => ?_⟩
-    · simp only [comp, newLabel]
-      generalize hs4 : ({ st with labelId := st.labelId + 1 + 1 + 1 + 1 } : CState) = s4
-      have hs4_id : s4.labelId = st.labelId + 4 := by subst hs4; rfl
-      have hs4_top : s4.regTop = st.regTop := by subst hs4; rfl
-      have hs4_code : s4.code = st.code := by subst hs4; rfl
-      have fa : Frame st.labelId st s4 := by
-        subst hs4; exact ⟨List.prefix_refl _, by simp; omega, fun _ _ => rfl, rfl, List.prefix_refl _⟩
-      obtain ⟨f1, hlt1, _⟩ := al s4 reg ec st.labelId (st.labelId + 1 + 1 + 1) true ⟨st.labelId + 1, st.labelId + 1 + 1, st.labelId⟩ false
-        (by rw [hs4_top]; exact htop)
-      generalize hr1 : comp l (.aux reg ec st.labelId (st.labelId + 1 + 1 + 1) true ⟨st.labelId + 1, st.labelId + 1 + 1, st.labelId⟩ false) s4 = r1 at f1 hlt1 ⊢
-      have fc : Frame st.labelId r1.st (setLabelHere r1.st (st.labelId + 1 + 1 + 1)) := frame_setLabelHere _ _ (by omega)
-      obtain ⟨f2, hlt2, _⟩ := ar (setLabelHere r1.st (st.labelId + 1 + 1 + 1)) reg ec st.labelId st.labelId false
-        ⟨st.labelId + 1, st.labelId + 1 + 1, st.labelId⟩ r1.b (by rw [fc.regTop, f1.regTop, hs4_top]; exact htop)
-      generalize hr2 : comp r (.aux reg ec st.labelId st.labelId false ⟨st.labelId + 1, st.labelId + 1 + 1, st.labelId⟩ r1.b)
-        (setLabelHere r1.st (st.labelId + 1 + 1 + 1)) = r2 at f2 hlt2 ⊢
-      have f2' : Frame st.labelId (setLabelHere r1.st (st.labelId + 1 + 1 + 1)) r2.st :=
-        f2.mono (by have := f1.labelId; simp at *; omega)
-      obtain ⟨ft, hle⟩ := logicalTail_frame (lo := st.labelId) (setLabelHere r1.st (st.labelId + 1 + 1 + 1)) r2.st (savereg ec reg)
-        ⟨st.labelId + 1, st.labelId + 1 + 1, st.labelId⟩ r2.b f2' hlt2 ⟨Nat.le_refl _, by simp, by simp; omega⟩
-      refine ⟨(fa.trans (f1.mono (by omega))).trans (fc.trans ft), ?_, by first | rfl | trivial, fun _ h => by simp [Cond.isLogical] at h⟩
-      simp only [setLabelHere_code] at hle
-      rw [hs4_code] at hlt1; omega
-    · simp only [comp, newLabel]
-      generalize hsa : ({ st with labelId := st.labelId + 1 } : CState) = sa
-      have hsa_id : sa.labelId = st.labelId + 1 := by subst hsa; rfl
-      have hsa_top : sa.regTop = st.regTop := by subst hsa; rfl
-      have hsa_code : sa.code = st.code := by subst hsa; rfl
-      have fa : Frame st.labelId st sa := by subst hsa; exact frame_newLabel st
-      obtain ⟨f1, hlt1, hb1⟩ := al sa reg ec thenl st.labelId true lb b (by rw [hsa_top]; exact htop)
-      generalize hr1 : comp l (.aux reg ec thenl st.labelId true lb b) sa = r1 at f1 hlt1 hb1 ⊢
-      have fc : Frame st.labelId r1.st (setLabelHere r1.st st.labelId) := frame_setLabelHere _ _ (Nat.le_refl _)
-      obtain ⟨f2, hlt2, hb2⟩ := ar (setLabelHere r1.st st.labelId) reg ec thenl elsel hasnext lb r1.b
-        (by rw [fc.regTop, f1.regTop, hsa_top]; exact htop)
-      have f2' := f2.mono (lo' := st.labelId) (by have := f1.labelId; simp at *; omega)
-      refine ⟨(fa.trans (f1.mono (by omega))).trans (fc.trans f2'), ?_, fun h => hb2 (hb1 h)⟩
-      simp only [setLabelHere_code] at hlt2
-      rw [hsa_code] at hlt1; omega
+    refine ⟨logical_ef l r ihl.2 ihr.2 _ (fun st reg ec => ⟨st.labelId, st.labelId + 1 + 1 + 1, true, rfl, rfl, by simp only [comp, newLabel]⟩),
+      fun st reg ec thenl elsel hasnext lb b htop => ?_⟩
+    rw [AF_iff]
+    exact af_logical l r ihl.2 ihr.2 st reg ec thenl st.labelId true thenl elsel hasnext lb b htop _ (by simp only [comp, newLabel])
 
 end GLua.Lowering
